@@ -28,9 +28,10 @@ func TestMain(m *testing.M) { evid.Main(m, "C04") }
 type Case struct {
 	T      tgen.TypeDesc `json:"type"`
 	Vals   []tgen.Recipe `json:"vals"`
-	Protos []int         `json:"protos"` // protocol (0 binary strict, 1 binary non-strict, 2 compact) of value i in the Reset chain
-	Init   int           `json:"init"`   // protocol the reused Encoder/Decoder are created with
-	ByPtr  bool          `json:"by_ptr"` // pass *T instead of T to Marshal / Encode
+	Protos []int         `json:"protos"`        // protocol (0 binary strict, 1 binary non-strict, 2 compact) of value i in the Reset chain
+	Init   int           `json:"init"`          // protocol the reused Encoder/Decoder are created with
+	ByPtr  bool          `json:"by_ptr"`        // pass *T instead of T to Marshal / Encode
+	Big    string        `json:"big,omitempty"` // label of a tgen.BigSpec case (collection of more than 1024 elements)
 }
 
 var protoNames = []string{"binary-strict", "binary-nonstrict", "compact"}
@@ -238,6 +239,23 @@ func knownClass(c Case, f *evid.Failure) string {
 
 func genCase(t *rapid.T, o *tgen.Opts) Case {
 	var c Case
+	if b := rapid.IntRange(0, 99).Draw(t, "big"); b == 37 || b == 61 { // rapid favours the bounds of a range: mid-range values give the intended ~1 %
+		// 1 % of the cases: a list, set or map that really holds more elements than
+		// the decoder preallocates (1024): two such values of one type, through every
+		// codec path of checkCase
+		b := tgen.GenBigSpec(t)
+		b2 := b
+		b2.N = rapid.SampledFrom([]int{1024, 1026, 3000, 5001}).Draw(t, "bign2")
+		var r1, r2 tgen.Recipe
+		c.T, r1 = b.Build()
+		_, r2 = b2.Build()
+		c.Vals = []tgen.Recipe{r1, r2}
+		c.Protos = []int{rapid.IntRange(0, 2).Draw(t, "proto"), rapid.IntRange(0, 2).Draw(t, "proto")}
+		c.Init = rapid.IntRange(0, 2).Draw(t, "init")
+		c.ByPtr = rapid.Bool().Draw(t, "byptr")
+		c.Big = b.Label()
+		return c
+	}
 	c.T = tgen.GenType(t, o)
 	maxVals := 5
 	if evid.Thorough() {
@@ -255,6 +273,10 @@ func genCase(t *rapid.T, o *tgen.Opts) Case {
 
 func account(c Case) {
 	evid.Eval(1)
+	if c.Big != "" {
+		evid.Label("big-collection(>1024 elements)." + c.Big)
+		evid.Label("big-collection(>1024 elements)")
+	}
 	for _, l := range tgen.TypeLabels(&c.T) {
 		evid.Label("type." + l)
 	}
